@@ -182,6 +182,16 @@ func propC04(a *Analysis, r *Registry) {
 		})
 	}
 
+	// Sample.MeanCI: the unweighted (or empty) sample delegates to MeanCI on its values
+	if fn := b.Fn(rB, "stats.(Sample).MeanCI"); fn != nil {
+		b.guard(rB, "stats.(Sample).MeanCI", func() {
+			env := X.EnvFor(fn, "s", "confidence")
+			fc := X.Under(fn, X.AssumeEq(env.MustParse("s.Weights"), env.MustParse("nil")))
+			for i, nm := range []string{"mean", "lo", "hi"} {
+				b.EqUnder(rB, "stats.(Sample).MeanCI/"+nm, b.pos(fn), fc, fc.RetVal(i), env, "MeanCI(s.Xs, confidence)#"+itoa(i))
+			}
+		})
+	}
 	// MeanCI
 	if fn := b.Fn(rB, "stats.MeanCI"); fn != nil {
 		b.guard(rB, "stats.MeanCI", func() {
